@@ -12,7 +12,7 @@ interleaving of the timer thread with any number of cancelling/enqueuing threads
   chart-delays   <send delay> / <cancel> in charts run by the interpreter: the processed events are
                  exactly the uncancelled ones, once each, in due order
 """
-import re
+import os, re
 from concurrent.futures import ThreadPoolExecutor
 from uvlib import BrokenTie, hexs, chunks
 
@@ -291,6 +291,27 @@ def chart_oracle(toks, meta):
     return None
 
 
+def second_incarnation(toks, r, meta):
+    """the tokens by which the incarnation after reset() (at index r) is judged, and how many stale arrivals were taken out"""
+    stamp = [t for t in toks[:r] if t.startswith("@")][-1:]
+    judged, stale = stamp + toks[r + 1:], 0
+    # a timer of the first incarnation that was due (to within the granularity) when reset() ran may have been past its
+    # ownership check already: reset's cancel does not find it and it is delivered - the "delivered" outcome of the race the
+    # property allows - after the queues were cleared. Such a stale arrival is taken out before the second incarnation is judged
+    after = [t for t in toks[r + 1:] if t.startswith("@")][:1]        # reset() is not stamped itself: it ran no later than the first element after it
+    t_reset, t, old_bc = int((after or stamp or ["@0"])[0][1:]), 0, {}
+    for tok in toks[:r]:
+        if tok.startswith("@"): t = int(tok[1:])
+        elif tok.startswith("bc:") and tok[3:].isdigit(): old_bc.setdefault(int(tok[3:]) - 100, t)
+    for i, d in meta["delay"].items():
+        if i in old_bc and old_bc[i] + d <= t_reset + G and "bpe:d%d" % i not in toks[:r]:
+            occ = [k for k, tok in enumerate(judged) if tok == "bpe:d%d" % i]
+            new_bc = [k for k, tok in enumerate(judged) if tok == "bc:%d" % (100 + i)]
+            if len(occ) >= 2 or (len(occ) == 1 and (not new_bc or occ[0] < new_bc[0])):
+                del judged[occ[0]]; stale += 1
+    return judged, stale
+
+
 def suite_charts(ctx, n):
     rng = ctx.rng
     lines, metas = [], []
@@ -324,21 +345,8 @@ def suite_charts(ctx, n):
         if "reset" in toks:
             r = toks.index("reset")
             st["with_reset"] += 1; st["pending_at_reset"] += sum(1 for i in meta["delay"] if "bc:%d" % (100 + i) in toks[:r] and "bpe:d%d" % i not in toks[:r])
-            stamp = [t for t in toks[:r] if t.startswith("@")][-1:]
-            judged = stamp + toks[r + 1:]
-            # a timer of the first incarnation that was due (to within the granularity) when reset() ran may have been past its
-            # ownership check already: reset's cancel does not find it and it is delivered - the "delivered" outcome of the race the
-            # property allows - after the queues were cleared. Such a stale arrival is taken out before the second incarnation is judged
-            t_reset, t, old_bc = int(stamp[0][1:]) if stamp else 0, 0, {}
-            for tok in toks[:r]:
-                if tok.startswith("@"): t = int(tok[1:])
-                elif tok.startswith("bc:") and tok[3:].isdigit(): old_bc.setdefault(int(tok[3:]) - 100, t)
-            for i, d in meta["delay"].items():
-                if i in old_bc and old_bc[i] + d <= t_reset + G and "bpe:d%d" % i not in toks[:r]:
-                    occ = [k for k, tok in enumerate(judged) if tok == "bpe:d%d" % i]
-                    new_bc = [k for k, tok in enumerate(judged) if tok == "bc:%d" % (100 + i)]
-                    if len(occ) >= 2 or (len(occ) == 1 and (not new_bc or occ[0] < new_bc[0])):
-                        del judged[occ[0]]; st["stale_after_racing_reset"] += 1
+            judged, stale = second_incarnation(toks, r, meta)
+            st["stale_after_racing_reset"] += stale
         why = ("abnormal end %s%s" % (bad, " - the session hangs: killed by the harness' 20 s watchdog (deadlock)" if "CRASH:14" in bad else "")) if bad or toks[-1] != "end" else chart_oracle(judged, meta)
         if why is None:
             st["as_expected"] += 1
@@ -359,7 +367,7 @@ def run(ctx):
     import lockscopes
     obs, diffs = lockscopes.facts("/repo")
     suite_schedules(ctx, 600 if quick else 20000)
-    suite_charts(ctx, 40 if quick else 1200)
+    suite_charts(ctx, int(os.environ.get("C09_CHARTS", 40 if quick else 1200)))
     # the two-lock layer is written from the lock scopes of the source; they are read again on every run. When they differ the
     # theorems no_deadlock_two_locks / reachable_projects are not about this code any more: the suites above (forced schedules,
     # the window held open) are the search for a failing input
